@@ -5,7 +5,9 @@
  * API action; at every point where the loop would block it picks the next
  * external stimulus.  Oracles compare with a small reference model.
  */
+#ifndef _GNU_SOURCE
 #define _GNU_SOURCE
+#endif
 #include <errno.h>
 #include <fcntl.h>
 #include <poll.h>
